@@ -783,6 +783,11 @@ class SigmaRegularExpression(SigmaType):
     def add_flag(self, flag: SigmaRegularExpressionFlag) -> None:
         self.flags.add(flag)
 
+    def __repr__(self) -> str:
+        # flags are shown in a fixed order (a set is printed in hash order)
+        flags = ", ".join(sorted(flag.name for flag in self.flags))
+        return f"SigmaRegularExpression(regexp={self.regexp!r}, flags={{{flags}}})"
+
     def compile(self) -> None:
         """Verify if regular expression is valid by compiling it"""
         try:
